@@ -302,10 +302,14 @@ Definition p_begin (k : N) (s : st) : st :=
   let s := if fuel s =? 0 then set_state OutOfFuel s else set_fuel (fuel s - 1) s in
   on_core (c_begin k) (note_hazard s).
 
+(* end_with_error on an empty node records no span *)
+Definition ewe_empty (c : core) : bool :=
+  match last_opt (opens c) with Some idx => Nat.eqb (S idx) (length (evs c)) | None => false end.
+
 Definition p_end (s : st) : st :=
   if failed s then
     let s := if Nat.eqb (opt_depth s) 0 then handle_errors s else s in
-    on_core c_end_with_error (note_hazard s)
+    on_core c_end_with_error (if ewe_empty (co s) then s else note_hazard s)
   else on_core c_end (note_hazard s).
 
 (* ---- expect_d ---- *)
@@ -488,11 +492,19 @@ Definition pop_all (s : st) : st :=
   let bad := negb (Nat.eqb (nbm c) 0) || negb (match opens c with [] => true | _ => false end) in
   on_core (fun c => c_set_panic (panic c || bad) (c_set_evs [] c)) s.
 
-Fixpoint items (n f : nat) (s : st) (out : list event) : st * list event :=
+(* why the rounds stopped *)
+Inductive exit_reason :=
+| Finished        (* has_more() = false: every token was consumed *)
+| FuelExhausted   (* state = OutOfFuel: the remaining tokens are NOT emitted *)
+| EmptyRound      (* a round produced no event: pop() = None ends the stream *)
+| Stuck.          (* the model's own round bound ran out (not a parser behaviour) *)
+
+Fixpoint items (n f : nat) (s : st) (out : list event) : st * list event * exit_reason :=
   match n with
-  | O => (set_stuck true s, out)
+  | O => (set_stuck true s, out, Stuck)
   | S n' =>
-    if is_oof s || Nat.leb (length toks) (cur (co s)) then (s, out) else
+    if is_oof s then (s, out, FuelExhausted) else
+    if Nat.leb (length toks) (cur (co s)) then (s, out, Finished) else
     let s := trivia s in
     let s := top_level_item f s in
     let s := flush_errors s in
@@ -500,16 +512,16 @@ Fixpoint items (n f : nat) (s : st) (out : list event) : st * list event :=
     let es := evs (co s) in
     let s := pop_all s in
     match es with
-    | [] => (s, out)
+    | [] => (s, out, EmptyRound)
     | _ => items n' f s (out ++ es)
     end
   end.
 
-Record result := mkResult { r_body : list event; r_final : st }.
+Record result := mkResult { r_body : list event; r_final : st; r_exit : exit_reason }.
 
 (* n: bound on the number of top-level rounds; f: recursion fuel of each round *)
 Definition parse (n f : nat) (fuel0 : N) : result :=
-  let '(s, out) := items n f (init_state fuel0) [] in mkResult out s.
+  let '(s, out, e) := items n f (init_state fuel0) [] in mkResult out s e.
 
 Definition full_events (r : result) : list event :=
   EBegin (k_source_file cfg) 0 src_len :: r_body r ++ [EEnd (k_source_file cfg) 0 src_len].
